@@ -110,7 +110,13 @@ def run(prop=None, ids=None, workers=8, repo="/repo"):
         pneg = run_patches(props=[prop], workers=workers, repo=repo)
         errors += ["refactoring patch %s: %s %s" % (r["id"], r["status"], r.get("keys") or r.get("why", "")) for r in pneg
                    if r["status"] not in ("silent", "skipped")]
-    return dict(mutants=len(res), caught=sum(r["status"] == "caught" for r in res),
+    sres = []
+    if prop is not None and ids is None:
+        sres = run_seeds(prop, workers=workers, repo=repo)
+        errors += ["stored seed %s: %s %s" % (r["id"], r["status"], r.get("why", "")) for r in sres if r["status"] in ("MISSED", "error")]
+    return dict(stored_seeds=len(sres), stored_seeds_reported=sum(r["status"] == "reported" for r in sres),
+                stored_seeds_skipped=[r["id"] for r in sres if r["status"] == "skipped"],
+                mutants=len(res), caught=sum(r["status"] == "caught" for r in res),
                 skipped=[r["id"] for r in res if r["status"] == "skipped"], errors=errors, results=res,
                 negative_controls=len(neg), negative_controls_silent=sum(r["status"] == "silent" for r in neg),
                 metamorphic=meta, refactoring_patches=len(pneg), refactoring_patches_silent=sum(r["status"] == "silent" for r in pneg))
@@ -166,6 +172,56 @@ def run_patches(props=None, workers=12, repo="/repo", patches=None):
             res = pool.map(_patch_one, args, chunksize=1)
     finally:
         shutil.rmtree(base, ignore_errors=True)
+    return res
+
+
+def stored_seeds(prop):
+    """(id, patch) of the confirmed breaking changes kept under seeded/ whose own property is `prop` (and that its check is recorded to report)"""
+    import json as _json
+    import re as _re
+    d = os.path.join(VERIF, "seeded")
+    out = []
+    for name in sorted(os.listdir(d)) if os.path.isdir(d) else []:
+        mp_, pp_ = os.path.join(d, name, "meta.json"), os.path.join(d, name, "patch.diff")
+        if not (os.path.isfile(mp_) and os.path.isfile(pp_)):
+            continue
+        try:
+            m = _json.load(open(mp_))
+        except ValueError:
+            continue
+        own = m.get("property")
+        db = _json.dumps(m.get("detected_by"))
+        if own and own + "/" not in db and _re.search(r"C\d\d/", db):
+            own = _re.search(r"(C\d\d)/", db).group(1)
+        if own == prop:
+            out.append((name, pp_))
+    return out
+
+
+def _seed_one(args):
+    r = _patch_one(args)
+    if r["status"] == "FALSE-ALARM":
+        r["status"] = "reported"
+    elif r["status"] == "silent":
+        r["status"] = "MISSED"
+    return r
+
+
+def run_seeds(prop, workers=12, repo="/repo"):
+    """positive controls: every stored, confirmed breaking change for `prop` (seeded/) applied to a scratch copy of the current tree must be reported
+    by the property's own check (a patch that no longer applies / compiles is skipped and listed)"""
+    import multiprocessing as mp
+    base = os.path.join(tempfile.gettempdir(), "nnverif-seed-%d-%d" % (os.getuid(), os.getpid()))
+    todo = stored_seeds(prop)
+    F.build_driver()
+    args = [(p_, "-neg%d" % (i % workers), [prop], repo, os.path.join(base, n_)) for i, (n_, p_) in enumerate(todo)]
+    try:
+        with mp.get_context("fork").Pool(workers) as pool:
+            res = pool.map(_seed_one, args, chunksize=1)
+    finally:
+        shutil.rmtree(base, ignore_errors=True)
+    for (n_, _), r in zip(todo, res):
+        r["id"] = n_
     return res
 
 
